@@ -1,6 +1,7 @@
 mod c01;
 mod c11;
 mod c16;
+mod c17;
 mod eng;
 mod probe;
 mod gen;
@@ -48,6 +49,7 @@ fn main() {
         "C16" => c16::run(&mut rng, &mut out, &tier),
         "C11" => c11::run(&mut rng, &mut out, &tier, false, "C11"),
         "C12" => c11::run(&mut rng, &mut out, &tier, true, "C12"),
+        "C17" => c17::run(&mut rng, &mut out, &tier),
         "probe" => probe::run(),
         "C01" => c01::run(&mut rng, &mut out, &tier),
         _ => {
